@@ -44,6 +44,7 @@ import ZygoVerif.Proofs.C01VM
 import ZygoVerif.Generated.PanicSites
 import ZygoVerif.Generated.StackSites
 import ZygoVerif.Generated.GenDispatch
+import ZygoVerif.Props.C04Err
 namespace ZygoVerif.C01
 open ZygoVerif.Parser ZygoVerif.Lexer ZygoVerif.GenSites
 
@@ -435,5 +436,57 @@ the data stack with a nil cell, and the typed pop of `Run` that follows is a hos
 theorem restore_can_pad :
     ((do restore ⟨0, 0, 0, 0, 1, 1⟩; popData : M Core.Val).run { VM.initSt with data := [] }).1
       = .error .panic := rfl
+
+/-! ## §5b No host panic for generated code (C04's contracts) -/
+
+open ZygoVerif.VM ZygoVerif.Core in
+/-- **c01_no_panic_served.** Every text of the grammar `Bal.okLs` (all core forms, loops,
+break/continue, functions, closures, tail calls, lazy parameters, apply/map/force), handed to an
+interpreter in any state reached from the fresh one by value-returning and erroring texts of
+that grammar (`C04.ServedStateE`), with any fuel: whatever outcome the VM model reports, its
+class is not `panic` — the evaluation returns a value, an error, or runs out of fuel. From C04's
+`no_host_panic` (Proofs/RunSafe.lean: no function of the VM's mutual block ends in a host panic
+from a state without nil cells; nil cells only come from `restoreControlState` growing a stack,
+every restore on a normal return is exact, and after an error nothing runs any more). -/
+theorem c01_no_panic_served (fuel : Nat) (es : List Expr) (s s' : St) (cls v : String) (tr : List String) (d : String)
+    (alive : Bool) (hs : C04.ServedStateE s) (hok : Bal.okLs es = true)
+    (h : runText fuel es s = (Outcome.done cls v tr d, s', alive)) : cls ≠ "panic" := by
+  intro hc
+  subst hc
+  exact C04.no_host_panic fuel es s s' v tr d alive (C04.servedStateE_served hs) hok h
+
+open ZygoVerif.VM ZygoVerif.Core in
+/-- a function `[pop, dup]` entered with one operand on the data stack -/
+def padState : St :=
+  { fns := [{ name := "f", code := [.pop, .dup] }], scopes := [{}], data := [some .nil], linear := [some 0],
+    curfunc := 0, pc := 0 }
+
+/-- **FINDING: `C01NoPanic` as first stated is false.** It asks `Good` (no nil cell) after EVERY
+`run` from EVERY `Good` state. `Run` records the stack sizes at its entry; a run entered with
+operands on the data stack — `Apply`/`map` push the arguments and then call `Run` — that fails
+after it has consumed them is restored to the recorded size by `TruncateToSize`, which PADS the
+data stack with nil cells. Here: `[pop, dup]` entered with one operand; `pop` takes it, `dup`
+fails on the empty stack, the restore pads back to size 1 with a nil cell. This is what the Go
+code does too; it is harmless there because the caller of such a `Run` (`Apply`) restores to
+ITS recorded sizes — taken before the arguments were pushed — which truncates the padding away
+before anything can pop it (`C04.err_contract`: every evaluator's restore after a failed nested
+`Run` is exact on scope and set-aside stacks; sizes on the data stack). The true statement is
+about the outermost `Run` of a text: `c01_no_panic_served`, and `C04.err_leaves_served` (after
+an erroring text the stacks are exactly those of entry, no nil cell). -/
+theorem c01NoPanic_asFirstStated_false : ¬ C01NoPanic := by
+  intro h
+  have hg : VMSafe.Good padState := by
+    refine ⟨?_, ?_, ?_, ?_, ?_⟩
+    · intro x hx; simp [padState] at hx; simp [hx]
+    · intro x hx; simp [padState] at hx; simp [hx]
+    · intro x hx; simp [padState] at hx
+    · intro l hl; simp [padState] at hl
+    · intro z hz; simp [padState] at hz
+  have hd : ((VM.run 5).run padState).2.data = [none] := by decide +kernel
+  exact (h 5 padState hg).1.data none (by rw [hd]; exact List.mem_cons_self) rfl
+
+/-- non-vacuity of `c01_no_panic_served`: the fresh interpreter is such a state, and so is the
+state after the empty text -/
+example : C04.ServedStateE VM.initSt := C04.ServedStateE.init
 
 end ZygoVerif.C01
